@@ -314,6 +314,36 @@ pub fn cycles_equal(real: &[Cy], refc: &[Cy]) -> bool {
     norm(real, ack) == norm(refc, ack)
 }
 
+/// Where the machine is shown the acknowledge T-states of an interrupt as address-carrying delay
+/// cycles, the address is the PC the CPU has at that moment – the return address it pushes next
+/// (behind the HALT when the interrupt wakes a halted CPU). A presentation without an address
+/// (`Ack(n)`) is not judged.
+pub fn ack_address_wrong(real: &[Cy], refc: &[Cy]) -> Option<String> {
+    let n = match refc.first() {
+        Some(Cy::Ack(n)) => *n as usize,
+        _ => return None,
+    };
+    let (hi, lo) = match (refc.get(1), refc.get(2)) {
+        (Some(Cy::Wr(_, h)), Some(Cy::Wr(_, l))) => (*h, *l),
+        _ => return None,
+    };
+    let ret = (hi as u16) << 8 | lo as u16;
+    if real.len() < n {
+        return None;
+    }
+    let mut addrs = vec![];
+    for c in &real[..n] {
+        match c {
+            Cy::Dl(a) => addrs.push(*a),
+            _ => return None,
+        }
+    }
+    if addrs.iter().any(|a| *a != ret) {
+        return Some(format!("the {} acknowledge T-states carry address(es) {:04x?} but the CPU's PC (the return address pushed next) is {:04x}", n, addrs, ret));
+    }
+    None
+}
+
 #[derive(Clone, Copy, PartialEq, Eq, Debug)]
 pub enum Class {
     /// architected result / access sequence of an ordinary instruction (C01)
@@ -442,6 +472,13 @@ impl Pair {
                 class,
                 key: format!("{}:access-sequence", opname),
                 what: format!("memory/port access sequence differs: real={:?} ref={:?}", real_all, ref_all),
+            });
+        }
+        if let Some(w) = ack_address_wrong(&real_all, &ref_all) {
+            found.push(Mismatch {
+                class: Class::Timing,
+                key: format!("{}:ack-address", if info.nmi_accepted { "nmi".to_string() } else { format!("int-im{}", before.im) }),
+                what: w,
             });
         }
         if !cycles_equal(&real_all, &ref_all) {
